@@ -144,6 +144,50 @@ def ob_eca_relations(name, T, pairs):
                      "C16|event_coincidence_analysis", wit)
 
 
+def ob_eca_rate(name, T, pairs, window_type):
+    """_eca_coincidence_rate with symbolic lag: exchanging the two series exchanges the two rates (the lag keeps its role), the
+    rates are time-shift invariant and lie in [0,1]"""
+    from pyunicorn.eventseries import EventSeries
+    funcs = ["src/pyunicorn/eventseries/event_series.py EventSeries._eca_coincidence_rate"]
+    t, hyps = sym_times(T)
+    tau = SV(z3.Real("taumax"))
+    lag = SV(z3.Real("lag"))
+    shift = SV(z3.Real("shift"))
+    hyps += [tau.v > 0, lag.v >= 0]
+    dummy = np.array([[0, 1], [1, 0]])
+
+    def harness(ex):
+        out = []
+        with pe.patched(mods()):
+            es = object.__new__(EventSeries)
+            EventSeries.__init__(es, dummy, taumax=1.0, lag=0.0)
+            es._EventSeries__taumax = tau
+            es._EventSeries__lag = lag
+            for (px, py) in pairs:
+                try:
+                    a = es._eca_coincidence_rate(px, py, window_type=window_type, ts1=t, ts2=t)
+                    b = es._eca_coincidence_rate(py, px, window_type=window_type, ts1=t, ts2=t)
+                    c = es._eca_coincidence_rate(px, py, window_type=window_type, ts1=t + shift, ts2=t + shift)
+                except (ZeroDivisionError, IndexError):
+                    continue
+                out.append((f"{px}{py} exchange", or_(neq(a[0], b[1]), neq(a[1], b[0]))))
+                out.append((f"{px}{py} shift", or_(neq(a[0], c[0]), neq(a[1], c[1]))))
+                for k in range(2):
+                    v = pe._num(a[k])
+                    if isinstance(v, sx.NF):
+                        out.append((f"{px}{py} range", and_(not_(v.nan), or_(lt(v.val, 0), gt(v.val, 1)))))
+                    else:
+                        out.append((f"{px}{py} range", or_(lt(v, 0), gt(v, 1))))
+        return [(l, b_) for l, b_ in out if b_ is not False]
+
+    def wit(m, lab):
+        return {"kind": "eca_rate", "window_type": window_type, "t": [sx.model_value(m, x.v) for x in t], "lag": sx.model_value(m, lag.v),
+                "shift": sx.model_value(m, shift.v), "taumax": sx.model_value(m, tau.v), "label": lab,
+                "pairs": [[p.tolist(), q.tolist()] for p, q in pairs]}
+    return run_paths(name, hyps, harness, funcs, f"T={T}, {len(pairs)} pattern pairs, window {window_type}, symbolic taumax>0, lag>=0",
+                     f"C16|_eca_coincidence_rate|{window_type}", wit)
+
+
 def ob_matrix(name, T, cols, method):
     """event_series_analysis: the N x N matrix contains exactly the pairwise values under each symmetrisation"""
     from pyunicorn.eventseries import EventSeries
@@ -288,6 +332,12 @@ def obligations(tier):
     ecap = ecap[:16 if not th else 48]
     for ci in range(0, len(ecap), 4):
         obs.append((ob_eca_relations, dict(name=f"C16|event_coincidence_analysis|relations|#{ci // 4}", T=4, pairs=ecap[ci:ci + 4]), 2400))
+    big = [(a, b) for a in patterns(5, 4) for b in patterns(5, 4) if a.sum() >= 3 and b.sum() >= 3]
+    rnd.shuffle(big)
+    big = big[:6 if not th else 18]
+    for wt in ("symmetric", "advanced", "retarded"):
+        for ci in range(0, len(big), 2):
+            obs.append((ob_eca_rate, dict(name=f"C16|_eca_coincidence_rate|{wt}|#{ci // 2}", T=5, pairs=big[ci:ci + 2], window_type=wt), 2400))
     cols = [[1, 0, 1, 1, 1], [0, 1, 1, 0, 1], [1, 1, 0, 1, 1]]
     obs.append((ob_matrix, dict(name="C16|event_series_analysis|ES|N=3", T=5, cols=cols, method="ES"), 2400))
     obs.append((ob_matrix, dict(name="C16|event_series_analysis|ECA|N=3", T=5, cols=cols, method="ECA"), 2400))
@@ -349,6 +399,29 @@ def replay(w):
                     bad = True
                     msgs.append(f"rate outside [0,1]: {a}")
         return bad, f"t={t.tolist()} lag={lag} taumax={tau}: " + "; ".join(msgs[:2])
+    if k == "eca_rate":
+        t = np.array(f(w["t"]), dtype=float)
+        lag, shift, tau = float(f(w["lag"])), float(f(w["shift"])), float(f(w["taumax"]))
+        es = EventSeries(np.array([[0, 1], [1, 0]]), taumax=tau, lag=lag)
+        bad, msgs = False, []
+        for px, py in w["pairs"]:
+            px, py = np.array(px), np.array(py)
+            if not lab.startswith(f"{px}{py}"):
+                continue
+            a = es._eca_coincidence_rate(px, py, window_type=w["window_type"], ts1=t, ts2=t)
+            b = es._eca_coincidence_rate(py, px, window_type=w["window_type"], ts1=t, ts2=t)
+            c = es._eca_coincidence_rate(px, py, window_type=w["window_type"], ts1=t + shift, ts2=t + shift)
+            cl = lambda u, v: np.allclose(u, v, rtol=1e-6, atol=1e-9, equal_nan=True)
+            if "exchange" in lab and not (cl(a[0], b[1]) and cl(a[1], b[0])):
+                bad = True
+                msgs.append(f"rates({px},{py})={a} but rates({py},{px})={b}")
+            if "shift" in lab and not cl(a, c):
+                bad = True
+                msgs.append(f"rates {a}, shifted by {shift}: {c}")
+            if "range" in lab and any((v < 0 or v > 1) for v in a if v == v):
+                bad = True
+                msgs.append(f"rate outside [0,1]: {a}")
+        return bad, f"window {w['window_type']} t={t.tolist()} lag={lag} taumax={tau}: " + "; ".join(msgs[:2])
     if k == "matrix":
         data = np.array(w["data"])
         t = np.array(f(w["t"]), dtype=float)
